@@ -12,6 +12,15 @@ pub enum Address {
 }
 
 impl Address {
+    /// Whether the address fits the wire formats: a domain name must be 1..=255 bytes long (its length travels
+    /// in one byte).
+    pub fn is_representable(&self) -> bool {
+        match self {
+            Address::Domain(host, _) => !host.is_empty() && host.len() <= u8::MAX as usize,
+            Address::Socket(_) => true,
+        }
+    }
+
     pub fn to_socket_addr(&self) -> io::Result<SocketAddr> {
         match self {
             Address::Domain(host, port) => {
